@@ -21,7 +21,10 @@ META = {
         "text / tspan tags and attribute quotes; the height uses styled_lines.len(); (text) every non-empty fragment of every line "
         "reaches the foreground span writer, and the sheet and the lines are computed after the invert pre-pass; (lines) split_lines "
         "cuts each run at every LF, drops only a CR directly before it, keeps style and order, and keeps an unterminated last "
-        "line. Does NOT decide width computation nor XML validity of characters (excluded by the property)."),
+        "line. Does NOT decide width computation nor XML validity of characters (excluded by the property)."
+        " (runs) the run list is WinconBytes::new().extract_next(ansi.as_bytes()).collect(), and the extractor's own SGR rules "
+        "(codes / substate / targets / emit of C07) are evaluated in this check as well, since a span can only be tagged with the style in effect if the runs carry it."
+        " Linked rules: the VT parser underneath (C02's table / order / action-map / guards / reset / limits / params rules, all but the OSC payload rule) is evaluated in this check too — a run is only right if every complete SGR sequence is dispatched with its parameters."),
 }
 
 MANIFEST = {
@@ -49,7 +52,13 @@ def run(ctx):
     rep.guarded("balance", V, lambda: rule_balance(facts, rep))
     rep.guarded("text", V + "Term::render_svg", lambda: rule_text(facts, rep))
     rep.guarded("lines", V + "split_lines", lambda: rule_lines(facts, rep))
-    for r, n in (("taint", 8), ("pairing", 9), ("classes", 11), ("invert", 4), ("names", 6), ("balance", 4), ("text", 5), ("lines", 7)):
+    # the styles the spans are tagged with are the runs of anstream's styled-run extractor: its SGR rules are evaluated here as
+    # well (same rules as C07), and render_svg must take its runs from it
+    from rules import links
+    links.extractor(facts, rep)
+    links.parser_under_sgr(facts, rep)
+    rep.guarded("runs", V + "Term::render_svg", lambda: rule_runs(facts, rep))
+    for r, n in (("taint", 8), ("pairing", 9), ("classes", 11), ("invert", 4), ("names", 6), ("balance", 4), ("text", 5), ("lines", 7), ("codes", 26), ("substate", 33), ("targets", 5), ("emit", 9), ("runs", 2)):
         rep.floor(r, n)
 
 
@@ -573,3 +582,23 @@ def rule_balance(facts, rep):
     rep.check(ok, "balance", r["path"], "document-balanced", f"svg/style/rect/text/tspan open and close on every structured path: {why}", loc(r))
     n = len(buffer_writes(r["hir"]))
     rep.check(n >= 40, "balance", r["path"], "template-fragments-found", f"{n}", loc(r))
+
+
+def rule_runs(facts, rep):
+    """render_svg's run list is the whole input through a fresh styled-run extractor, collected as is."""
+    b = facts.body("anstyle_svg", V + "Term::render_svg")
+    st = hir.stmts_of(b["hir"])
+    l0, l1 = (st + [{}, {}])[:2]
+    ok0 = l0.get("k") == "let" and hir.is_call(hir.simp(l0.get("init", {})), "anstream::adapter::wincon::WinconBytes::new")
+    i1 = hir.simp(l1.get("init", {})) if l1.get("k") == "let" else {}
+    ok1 = hir.is_call(i1, "core::iter::traits::iterator::Iterator::collect")
+    if ok1:
+        ex = hir.simp(i1["args"][0])
+        ok1 = hir.is_call(ex, "anstream::adapter::wincon::WinconBytes::extract_next") and hir.is_local(hir.peel(ex["args"][0]), l0["pat"].get("name"))
+        if ok1:
+            a = hir.simp(ex["args"][1])
+            ok1 = hir.is_call(a, "as_bytes") and hir.is_local(a["args"][0], "ansi")
+    rep.check(ok0 and ok1, "runs", b["path"], "runs=WinconBytes::new().extract_next(ansi.as_bytes()).collect()",
+              "the styled runs come from anstream's extractor applied once to the whole input (no filtering, no second parser)", loc(b))
+    uses = [n for n in hir.walk(b["hir"]) if n.get("k") == "local" and n.get("name") == "ansi"]
+    rep.check(len(uses) == 1, "runs", b["path"], "input-used-once", f"{len(uses)} uses of `ansi`", loc(b))
